@@ -30,7 +30,7 @@ class C16(Pipeline):
             Gen("TokenFactoryGen", "TokenFactoryGen_subs_cover", "bfs", tiers=("quick",), timeout=300),
             Gen("TokenFactoryGen", "TokenFactoryGen_subs_cover_big", "bfs", tiers=("thorough",), timeout=1200),
             Gen("TokenFactoryGen", "TokenFactoryGen_sim", "simulate", num=400, depth=14, tiers=("quick",), timeout=300),
-            Gen("TokenFactoryGen", "TokenFactoryGen_sim", "simulate", num=2000, depth=14, tiers=("thorough",), timeout=1200)]
+            Gen("TokenFactoryGen", "TokenFactoryGen_sim", "simulate", num=1500, depth=14, tiers=("thorough",), timeout=1200)]
     driver_pkg = "drivers/tokenfactory"
     driver_test = "TestDriveTokenFactory"
     trace_module = "TokenFactoryTrace"
@@ -186,6 +186,10 @@ class C16(Pipeline):
             if r["c"] == a["who"] and r["s"] == a["s"]:
                 r["admin"] = a["who"] % 3 + 1
         jobs["wrong_admin_rejected"] = (evs, lambda v: any(n == "C16.CreateNamespace" for n, _, _ in v.monfail))
+        # 5. a denomination outside the tracked literal names reported in the module's creator index -> NoForeignDenoms must fail
+        evs = copy.deepcopy(byh[h4])
+        evs[k4]["obs"]["x"][0] += 1
+        jobs["foreign_denom_rejected"] = (evs, lambda v: any(n == "C16.NoForeignDenoms" for n, _, _ in v.monfail))
         t0 = time.time()
         with ThreadPoolExecutor(max_workers=len(jobs)) as ex:
             vs = dict(zip(jobs, ex.map(lambda j: self.validate(j[0]), jobs.values())))
